@@ -12,7 +12,7 @@ from ..core import Sub
 PROP = {
     "id": "C06",
     "level": "exploration",
-    "technique": "differential testing against an independent struct-only reference codec (reftdf): library encode == reference encode byte for byte; library decode of reference-encoded bytes == reference decode; header/entries both directions; BTS capture vs golden digests",
+    "technique": "differential testing against an independent struct-only reference codec (reftdf): library encode == reference encode byte for byte; library decode of reference-encoded bytes (canonical and non-canonical run tables, every don't-care filler) == reference decode; header/entries both directions incl. the reference's own type-code names; BTS capture vs golden digests",
     "level_text": ("Exploration by differential testing: an independent layout-driven encoder/decoder (no numpy, no basictdf import), "
                    "validated against the BTS-recorded capture and pinned by golden digests, is the oracle for generated blocks of all "
                    "nine types, generated header/entry field values and the capture itself. Detects changes made consistently on the "
@@ -31,7 +31,7 @@ def selfcheck():
 
 
 def run_encode(ctx, case):
-    spec, hints = case["spec"], case.get("hints")
+    spec, hints = specs.expand_case(case)
     t = spec["t"]
     ref = reftdf.encode(spec)
     ok, blk = ctx.must(lambda: specs.build(spec, hints), f"{t}/build", f"constructing a valid {t} block")
@@ -71,7 +71,7 @@ def filler(kind, seed):
 
 
 def run_decode(ctx, case):
-    spec, fill = case["spec"], case.get("fill", ["zero", 0])
+    spec, fill = specs.expand_case(case)[0], case.get("fill", ["zero", 0])
     t = spec["t"]
     want = specs.canon(spec)
     data = reftdf.encode(spec, dc=filler(fill[0], fill[1]), seg_variant=case.get("segs"))
@@ -372,6 +372,12 @@ SUBS = [
     Sub("capture", run_capture, kind="enum", enumerate=enum_capture, shards=(3, 9),
         rule="BTS capture: each block decoded by the library vs reftdf (pinned by golden digests), jump table fields (finite, enumerated)"),
 ]
+SUBS.append(Sub("boundary-counts-encode", run_encode, kind="enum", enumerate=specs.enum_boundary, shards=(8, 16),
+        rule="78 fixed blocks whose counts sit on 2^8 / 2^15 / 2^16 (values per event, items per block, runs per track, frames per track, points per 2D cell, links); "
+             "finite, enumerated", nontrivial_required=False))
+SUBS.append(Sub("boundary-counts-decode", run_decode, kind="enum", enumerate=specs.enum_boundary, shards=(8, 16),
+        rule="78 fixed blocks whose counts sit on 2^8 / 2^15 / 2^16 (values per event, items per block, runs per track, frames per track, points per 2D cell, links); "
+             "finite, enumerated", nontrivial_required=False))
 SUBS += [Sub(f"fuzz:{t}", run_raw, kind="fuzz", fuzz_target=("spec", t, _adapter), budget=(0, 60000), shards=(1, 2),
              rule=f"Atheris/libFuzzer, library instrumented: raw bytes that the reference decoder accepts as an in-domain {t} block; "
                   "library decode vs reference decode, canonical re-encode; seeded and empty corpus") for t in specs.TYPES]
